@@ -1,5 +1,256 @@
-/- Line-protocol handler for C04 (stub until the model exists). -/
-import NoulithModel.Common
+/- Line-protocol handler for C04.
+
+Requests (space separated tokens):
+  `table`                               → the generated registration table, one line:
+                                          `<hex name>:<family>:<hex alias or ->:<how>` joined by `|`
+  `families`                            → `<struct>:<modelled run1 override>:<modelled run2 override>:<extracted r1>:<extracted r2>` joined by `|`
+  `form <form> <n> <func…> <arg…>×n`    → evaluate one surface form in the SYMBOLIC world
+  `entry <run|run1|run2> <func…> <arg…>`→ one entry point of a callable in the symbolic world
+
+Polish-notation callables: `B <id> <struct>` | `C <id>` | `T <id>` | `X <id>` | `P1 f v` | `P2 f v` |
+`PL f v` | `COMP f g` | `ON f g` | `FLIP f`; values: `A <kind> <id>` | `F f` | `L <n> v…`.
+
+Response: `<impl>\t<spec>` where impl = `ok <term>` | `throw` | `panic` is the outcome the Impl model
+predicts, as a term over the opaque bodies (`O(b2:17;$0,$1)` = "what body b2 of builtin 17 returns
+for arguments 0 and 1"), and spec = `ref:always` | `ref:ifSection` | `ref:ifNotFunc` | `ref:none`
+names the reference the property attaches to the form (Spec/ApplySpec.lean `refOf`): the plain
+call of the same callable on the same tuple.  The harness resolves both against the real
+interpreter. -/
+import NoulithModel.Spec.ApplySpec
+import NoulithModel.Generated.C04Tables
+
 namespace Noulith.DriverC04
-def handle (_args : List String) : String := "bad-op"
+open Noulith Noulith.Apply
+
+/-- the symbolic world: every opaque body returns a term naming the call -/
+def symWorld : World where
+  bodies id := ⟨fun a => .ok (.opq s!"b1:{id}" [a]), fun a b => .ok (.opq s!"b2:{id}" [a, b]),
+                fun xs => .ok (.opq s!"bn:{id}" xs)⟩
+  closure c args := .ok (.opq s!"cl:{c}" args)
+  iter v := if v.isSeq then .ok [.opq "iter" [v]] else .throw
+  index x i := .ok (.opq "index" [x, i])
+  callType t args := .ok (.opq s!"ty:{t}" args)
+  callDyn callee args := .ok (.opq "dyn" (callee :: args))
+  chainN id args := .ok (.opq s!"chn:{id}" args)
+  other id args := .ok (.opq s!"x:{id}" args)
+
+mutual
+partial def renderVal : Val → String
+  | .atom _ id => s!"${id}"
+  | .list xs => "L(" ++ joinWith "," (xs.map renderVal) ++ ")"
+  | .opq l xs => "O(" ++ l ++ ";" ++ joinWith "," (xs.map renderVal) ++ ")"
+  | .func f => "F(" ++ renderFunc f ++ ")"
+partial def renderSlot : Slot → String
+  | .val v => renderVal v
+  | .hole false => "_"
+  | .hole true => "_*"
+partial def renderOpt : Option Val → String
+  | some v => renderVal v
+  | none => "_"
+partial def renderFunc : Func → String
+  | .builtin id _ => s!"B({id})"
+  | .closure id => s!"C({id})"
+  | .partialApp1 f x => "P1(" ++ renderFunc f ++ "," ++ renderVal x ++ ")"
+  | .partialApp2 f x => "P2(" ++ renderFunc f ++ "," ++ renderVal x ++ ")"
+  | .partialAppLast f x => "PL(" ++ renderFunc f ++ "," ++ renderVal x ++ ")"
+  | .composition f g => "COMP(" ++ renderFunc f ++ "," ++ renderFunc g ++ ")"
+  | .onComposition f g => "ON(" ++ renderFunc f ++ "," ++ renderFunc g ++ ")"
+  | .flip f => "FLIP(" ++ renderFunc f ++ ")"
+  | .listSection xs => "LS(" ++ joinWith "," (xs.map renderSlot) ++ ")"
+  | .callSection c xs => "CS(" ++ renderVal c ++ ";" ++ joinWith "," (xs.map renderSlot) ++ ")"
+  | .callSectionU xs => "CSU(" ++ joinWith "," (xs.map renderSlot) ++ ")"
+  | .chainSection1 s op o => "CH(" ++ renderOpt s ++ ";" ++ renderFunc op ++ ";" ++ renderOpt o ++ ")"
+  | .chainSectionN id => s!"CHN({id})"
+  | .indexSection x i => "IS(" ++ renderOpt x ++ ";" ++ renderOpt i ++ ")"
+  | .typeF id => s!"T({id})"
+  | .other id => s!"X({id})"
+end
+
+def parseKind : String → Option Kind
+  | "null" => some .null | "num" => some .num | "vec" => some .vec | "str" => some .str
+  | "list" => some .list | "dict" => some .dict | "bytes" => some .bytes | "stream" => some .stream
+  | "inst" => some .inst | "opq" => some .opq
+  | _ => none
+
+mutual
+partial def parseFunc : List String → Option (Func × List String)
+  | "B" :: id :: struct :: rest =>
+    match id.toNat?, Family.ofStruct struct with
+    | some n, some F => some (.builtin n F, rest)
+    | _, _ => none
+  | "C" :: id :: rest => id.toNat?.map fun n => (.closure n, rest)
+  | "T" :: id :: rest => id.toNat?.map fun n => (.typeF n, rest)
+  | "X" :: id :: rest => id.toNat?.map fun n => (.other n, rest)
+  | "P1" :: rest => do
+    let (f, r1) ← parseFunc rest
+    let (v, r2) ← parseVal r1
+    pure (.partialApp1 f v, r2)
+  | "P2" :: rest => do
+    let (f, r1) ← parseFunc rest
+    let (v, r2) ← parseVal r1
+    pure (.partialApp2 f v, r2)
+  | "PL" :: rest => do
+    let (f, r1) ← parseFunc rest
+    let (v, r2) ← parseVal r1
+    pure (.partialAppLast f v, r2)
+  | "COMP" :: rest => do
+    let (f, r1) ← parseFunc rest
+    let (g, r2) ← parseFunc r1
+    pure (.composition f g, r2)
+  | "ON" :: rest => do
+    let (f, r1) ← parseFunc rest
+    let (g, r2) ← parseFunc r1
+    pure (.onComposition f g, r2)
+  | "FLIP" :: rest => do
+    let (f, r1) ← parseFunc rest
+    pure (.flip f, r1)
+  | "CS" :: rest => do
+    let (c, r1) ← parseVal rest
+    match r1 with
+    | n :: r2 =>
+      let n ← n.toNat?
+      let (ss, r3) ← parseSlots n r2
+      pure (.callSection c ss, r3)
+    | [] => none
+  | "CSU" :: n :: rest => do
+    let n ← n.toNat?
+    let (ss, r) ← parseSlots n rest
+    pure (.callSectionU ss, r)
+  | "LS" :: n :: rest => do
+    let n ← n.toNat?
+    let (ss, r) ← parseSlots n rest
+    pure (.listSection ss, r)
+  | "CH" :: rest => do
+    let (s, r1) ← parseOpt rest
+    let (f, r2) ← parseFunc r1
+    let (o, r3) ← parseOpt r2
+    pure (.chainSection1 s f o, r3)
+  | _ => none
+partial def parseOpt : List String → Option (Option Val × List String)
+  | "N" :: rest => some (none, rest)
+  | rest => do
+    let (v, r) ← parseVal rest
+    pure (some v, r)
+partial def parseSlots : Nat → List String → Option (List Slot × List String)
+  | 0, rest => some ([], rest)
+  | n + 1, "H" :: rest => do
+    let (ss, r) ← parseSlots n rest
+    pure (.hole false :: ss, r)
+  | n + 1, "HS" :: rest => do
+    let (ss, r) ← parseSlots n rest
+    pure (.hole true :: ss, r)
+  | n + 1, rest => do
+    let (v, r1) ← parseVal rest
+    let (ss, r2) ← parseSlots n r1
+    pure (.val v :: ss, r2)
+partial def parseVal : List String → Option (Val × List String)
+  | "A" :: k :: id :: rest =>
+    match parseKind k, id.toNat? with
+    | some k, some n => some (.atom k n, rest)
+    | _, _ => none
+  | "F" :: rest => do
+    let (f, r) ← parseFunc rest
+    pure (.func f, r)
+  | "L" :: n :: rest => do
+    let n ← n.toNat?
+    let (vs, r) ← parseVals n rest
+    pure (.list vs, r)
+  | _ => none
+partial def parseVals : Nat → List String → Option (List Val × List String)
+  | 0, rest => some ([], rest)
+  | n + 1, rest => do
+    let (v, r1) ← parseVal rest
+    let (vs, r2) ← parseVals n r1
+    pure (v :: vs, r2)
+end
+
+def parseForm (s : String) : Option Form :=
+  match s with
+  | "call" => some .call | "bang" => some .bang | "infix" => some .infixOp | "backtick" => some .backtick
+  | "secall" => some .secAll | "chainR" => some .chainR | "chainL" => some .chainL
+  | "chainBoth" => some .chainBoth | "apply" => some .apply | "of" => some .of_ | "juxt" => some .juxt
+  | "rsec" => some .rsec | "opassign" => some .opAssign | "splatAll" => some .splatAll
+  | "splatTail" => some .splatTail | "dot" => some .dot | "fwdDot" => some .fwdDot
+  | _ => if s.startsWith "sec" then (s.drop 3).toString.toNat?.map Form.secHole else none
+
+def renderRef : ApplySpec.Ref → String
+  | .always => "ref:always"
+  | .ifSection => "ref:ifSection"
+  | .ifNotFunc => "ref:ifNotFunc"
+
+def hexOfString (s : String) : String := hexOfBytes (s.toUTF8.toList.map (·.toNat))
+
+def tableLine : String :=
+  joinWith "|" (C04Tables.registrations.map fun r =>
+    hexOfString r.name ++ ":" ++ r.family ++ ":" ++ (match r.alias with
+      | some a => hexOfString a
+      | none => "-") ++ ":" ++ r.how)
+
+def b2s (b : Bool) : String := if b then "1" else "0"
+
+def familiesLine : String :=
+  joinWith "|" (C04Tables.structOverrides.map fun (s, r1, r2) =>
+    match Family.ofStruct s with
+    | some F => s ++ ":" ++ b2s F.overrides.1 ++ ":" ++ b2s F.overrides.2 ++ ":" ++ b2s r1 ++ ":" ++ b2s r2
+    | none => s ++ ":?:?:" ++ b2s r1 ++ ":" ++ b2s r2)
+
+def handle (args : List String) : String :=
+  match args with
+  | ["table"] => tableLine
+  | ["families"] => familiesLine
+  | "form" :: form :: n :: rest =>
+    match parseForm form, n.toNat? with
+    | some fm, some n =>
+      match parseFunc rest with
+      | some (f, r1) =>
+        match parseVals n r1 with
+        | some (vs, []) =>
+          (evalForm symWorld fm f vs).render renderVal ++ "\t" ++
+            (if (ApplySpec.arity fm).all (· == vs.length) then renderRef (ApplySpec.refOf fm) else "ref:none")
+        | _ => "bad-op"
+      | none => "bad-op"
+    | _, _ => "bad-op"
+  | "mk" :: which :: n :: rest =>
+    -- the function VALUE a library combinator builds (lib.rs bodies of flip, <<<, >>>, on)
+    match n.toNat? with
+    | some n =>
+      match parseVals n rest with
+      | some (vs, []) =>
+        let r : Out Val :=
+          match which, vs with
+          | "flip", [a] => Family.run1 .oneArg flipBodies libSelf a
+          | "compose", [a, b] => Family.run2 .twoArg composeBodies libSelf a b
+          | "rcompose", [a, b] => Family.run2 .twoArg composeBodies libSelf b a
+          | "on", [a, b] => Family.run2 .twoArg onBodies libSelf a b
+          | _, _ => .throw
+        r.render renderVal ++ "\tref:none"
+      | _ => "bad-op"
+    | none => "bad-op"
+  | "entry" :: e :: rest =>
+    match parseFunc rest with
+    | some (f, r1) =>
+      match e, r1 with
+      | "run", r =>
+        -- the rest: a count then the values
+        match r with
+        | n :: r' =>
+          match n.toNat? with
+          | some n =>
+            match parseVals n r' with
+            | some (vs, []) => (f.run symWorld vs).render renderVal ++ "\tref:none"
+            | _ => "bad-op"
+          | none => "bad-op"
+        | [] => "bad-op"
+      | "run1", r =>
+        match parseVals 1 r with
+        | some ([a], []) => (f.run1 symWorld a).render renderVal ++ "\tref:none"
+        | _ => "bad-op"
+      | "run2", r =>
+        match parseVals 2 r with
+        | some ([a, b], []) => (f.run2 symWorld a b).render renderVal ++ "\tref:none"
+        | _ => "bad-op"
+      | _, _ => "bad-op"
+    | none => "bad-op"
+  | _ => "bad-op"
+
 end Noulith.DriverC04
